@@ -14,6 +14,7 @@ def info(pid, modules):
             srcs.append(re.sub(r"--.*", "", re.sub(r"/-.*?-/", "", open(p).read(), flags=re.S)))
     src = "\n".join(srcs)
     partial = re.findall(r"^\s*theorem\s+(%s_\w*_partial\w*)" % pid, src, re.M)
+    # a statement refuted by an input OUTSIDE the property's domain is named `…_remark`, not `…_statement`
     for name in re.findall(r"^\s*def\s+(%s_\w*statement\w*)" % pid, src, re.M):
         if re.search(r"theorem\s+\w+[^:=]*:\s*%s\s*:=" % re.escape(name), src) or re.search(r"theorem\s+\w+\s*:\s*%s\b" % re.escape(name), src):
             proved.append(name)
